@@ -73,6 +73,7 @@ type runner struct {
 	objects, txs                   int
 	txcf                           *vh.CaseFile
 	histories, retainedObjs        int
+	scribbles, scribbleObs         int
 }
 
 func sliceOf(data []byte, s blk.Span) []byte { return data[s.Off : s.Off+s.Len] }
@@ -494,6 +495,11 @@ func run(c *vh.Ctx) error {
 		if err != nil {
 			return err
 		}
+		if rp.Replay.Type >= scribbleTypeBase { // a caller-buffer history for one entry point
+			t := rp.Replay.Type - scribbleTypeBase
+			r.runScribble(rp.Replay.Label, int(t/100), t%100, root)
+			return nil
+		}
 		if rp.Replay.Type >= retainTypeBase { // a retain history: the first input; the second is derived from it
 			r.runRetain(rp.Replay.Label, rp.Replay.Type-retainTypeBase, root)
 			return nil
@@ -524,6 +530,7 @@ func run(c *vh.Ctx) error {
 	}
 	r.boundaryCorpus(fx)
 	r.retainCorpus(fx)
+	r.scribbleCorpus(fx)
 	dtx, _ := os.ReadFile(blk.Repo() + "/ledger/dijkstra/testdata/cardano_ledger_dijkstra_w30_tx.hex")
 	r.txCorpus(fx, vh.UnHex(strings.TrimSpace(string(dtx))))
 	for round := 0; round < c.Pick(3, 25); round++ {
@@ -556,6 +563,7 @@ func run(c *vh.Ctx) error {
 	if pct < 60 {
 		c.Res.Violate("correspondence", "generator-too-canonical", fmt.Sprintf("only %d%% of accepted cases have a non-minimal container", pct), nil)
 	}
+	c.Res.Notes = append(c.Res.Notes, fmt.Sprintf("caller-buffer histories (decode from a scratch buffer through block / header / tx / body / witness-set / output / datum-option entry points, observe the object and everything reachable, overwrite or re-use the buffer, observe again): %d, observations re-checked: %d", r.scribbles, r.scribbleObs))
 	c.Res.Notes = append(c.Res.Notes, fmt.Sprintf("retain histories (decode A, keep its objects and Cbor() slices, decode B into the same receiver, re-check): %d, retained objects re-checked: %d", r.histories, r.retainedObjs))
 	_ = strings.TrimSpace
 	return nil
